@@ -20,8 +20,12 @@ Open Scope Z_scope.
 (* a request: transaction id, command (1 connect, 2 createStream, 0: a packet that expects no
    response), and whether the transport fails when it is written (in the cases: from this write on) *)
 Record req := { q_tid : Z; q_name : Z; q_fail : bool }.
-(* onPacketWriten registers iff tid > 0 and the command name is non-empty *)
-Definition needs (q : req) : bool := (0 <? q_tid q) && negb (q_name q =? 0).
+(* onPacketWriten registers, and onPacketWriteFailed rolls back, iff requestTransaction yields tid > 0
+   and a non-empty command name *)
+(* requestTransaction: only connect (1) and createStream (2) carry a transaction; every other packet
+   kind -- 0 a call such as releaseStream, 3 a connect response, 4 a createStream response,
+   5 publish, 6 play -- has none, whatever its transaction id field says *)
+Definition needs (q : req) : bool := (0 <? q_tid q) && ((q_name q =? 1) || (q_name q =? 2)).
 
 Inductive mop :=
 | MStore (k : nat)        (* transactions[tid_k] = name_k *)
@@ -72,19 +76,10 @@ Record tskel := {
   k_wp : list tev;        (* WritePacket *)
   k_reg : list aev;       (* onPacketWriten *)
   k_unreg : list aev;     (* onPacketWriteFailed *)
-  k_look : list aev }.    (* the lookup in parseAMFObject *)
-
-Definition repo_skel : tskel := Eval vm_compute in
-  {| k_wm := map decode_wev rtmp_WriteMessage_skel;
-     k_wp := map decode_tev rtmp_WritePacket_skel;
-     k_reg := map decode_aev rtmp_onPacketWriten_skel;
-     k_unreg := map decode_aev rtmp_onPacketWriteFailed_skel;
-     k_look := map decode_aev rtmp_parseAMFObject_tx_skel |}.
-(* the pinned snapshot: bytes first, bookkeeping afterwards, no clean-up *)
-Definition old_skel : tskel :=
-  {| k_wm := [WChunk; WChunk; WFlush; WHook];
-     k_wp := [TMarshal; TWrite; TRegister];
-     k_reg := [ALock; AStore; AUnlock]; k_unreg := []; k_look := [ALock; ALoad; ADelete; AUnlock] |}.
+  k_look : list aev;      (* the lookup in parseAMFObject *)
+  k_same_kinds : bool }.  (* registration and roll-back apply to the SAME packet kinds: both take (tid, name)
+                             from requestTransaction under the same guard, and requestTransaction knows
+                             exactly the connect and createStream requests *)
 
 Fixpoint skel_eqb (a b : list (string * string)) : bool :=
   match a, b with
@@ -99,7 +94,24 @@ Definition before_flush_skel : tskel :=
   {| k_wm := [WChunk; WChunk; WRegister; WFlush; WHook];
      k_wp := [TMarshal; TWrite; TUnregFail];
      k_reg := [ALock; AStore; AUnlock]; k_unreg := [ALock; ADelete; AUnlock];
-     k_look := [ALock; ALoad; ADelete; AUnlock] |}.
+     k_look := [ALock; ALoad; ADelete; AUnlock]; k_same_kinds := true |}.
+
+Definition repo_skel : tskel := Eval vm_compute in
+  {| k_wm := map decode_wev rtmp_WriteMessage_skel;
+     k_wp := map decode_tev rtmp_WritePacket_skel;
+     k_reg := map decode_aev rtmp_onPacketWriten_skel;
+     k_unreg := map decode_aev rtmp_onPacketWriteFailed_skel;
+     k_look := map decode_aev rtmp_parseAMFObject_tx_skel;
+     k_same_kinds :=
+       skel_eqb rtmp_onPacketWriten_kinds rtmp_onPacketWriteFailed_kinds
+       && skel_eqb rtmp_onPacketWriten_kinds [("kinds_from", "requestTransaction"); ("guard", "tid > 0 && len(name) > 0")]%string
+       && skel_eqb rtmp_requestTransaction_kinds [("case", "ConnectAppPacket"); ("case", "CreateStreamPacket")]%string |}.
+(* the pinned snapshot: bytes first, bookkeeping afterwards, no clean-up *)
+Definition old_skel : tskel :=
+  {| k_wm := [WChunk; WChunk; WFlush; WHook];
+     k_wp := [TMarshal; TWrite; TRegister];
+     k_reg := [ALock; AStore; AUnlock]; k_unreg := []; k_look := [ALock; ALoad; ADelete; AUnlock];
+     k_same_kinds := true |}.
 
 (* the table is touched nowhere else (NewProtocol creates it before the Protocol is shared) *)
 Definition repo_sites_ok : bool := Eval vm_compute in
@@ -110,12 +122,22 @@ Definition repo_sites_ok : bool := Eval vm_compute in
    transport-visible), WriteMessage itself only writes chunks, flushes and runs its hook; clean up
    when the write fails; every table access inside the lock *)
 Definition tx_safeb (sk : tskel) : bool :=
+  k_same_kinds sk &&
   match k_wm sk, k_wp sk, k_reg sk, k_unreg sk, k_look sk with
   | [WChunk; WChunk; WFlush; WHook],
     [TMarshal; TRegister; TWrite; TUnregFail], [ALock; AStore; AUnlock], [ALock; ADelete; AUnlock],
     [ALock; ALoad; ADelete; AUnlock] => true
   | _, _, _, _, _ => false
   end.
+
+(* a roll-back that applies to MORE packet kinds than the registration (e.g. to every command packet
+   with tid > 0): a failed write of a call deletes the entry of an outstanding request with the
+   same number.  The instruction lists are the same as in the safe skeleton -- the difference is in
+   which packets run the roll-back -- so it is modelled by the flag alone and rejected by it. *)
+Definition wide_rollback_skel : tskel :=
+  {| k_wm := [WChunk; WChunk; WFlush; WHook]; k_wp := [TMarshal; TRegister; TWrite; TUnregFail];
+     k_reg := [ALock; AStore; AUnlock]; k_unreg := [ALock; ADelete; AUnlock];
+     k_look := [ALock; ALoad; ADelete; AUnlock]; k_same_kinds := false |}.
 
 (* instructions of one table access region; [st] and [de] say what a store / a delete is here *)
 Definition aev_code (st de : mop) (e : aev) : list tinstr :=
